@@ -19,8 +19,13 @@ def run(ctx, out):
     # the same harness with the REAL load::read parsing manifest text (only file reading and the log file are modelled)
     if ctx.quick():
         ex2 = R.run_run(ctx, out, 'C17', G, report=G, real_read=True, g1s=('plain',), g2s=('same', 'renamed', 'grown2'))
+        # the manifest split over an included file that the generator rewrites (the top-level file never changes)
+        ex3 = R.run_run(ctx, out, 'C17', G, report=G, real_read=True, g1s=('plain',), g2s=('renamed',), layouts=('inc',))
     else:
-        ex2 = R.run_run(ctx, out, 'C17', G, report=G, real_read=True)
+        ex2 = R.run_run(ctx, out, 'C17', G, report=G, real_read=True, g2s=('same', 'renamed', 'default', 'pooled', 'grown', 'grown2'))
+        ex3 = R.run_run(ctx, out, 'C17', G, report=G, real_read=True, g2s=('same', 'renamed', 'grown2'), layouts=('inc',))
+    ex2.paths += ex3.paths
+    ex2.queries += ex3.queries
     ex.paths += ex2.paths
     ex.queries += ex2.queries
     cov = out.coverage
@@ -29,7 +34,7 @@ def run(ctx, out):
         'samples': cov.get('samples') or [{'note': 'no path closed'}],
         'explanation': 'states = path classes over (generation-1 variant x generation-2 variant x targets x -f spelling x dirty bits x schedule x outcomes)',
         'bounds': {'generation 1': list(R.G1_VARIANTS), 'generation 2': list(R.GEN2), 'targets': R.TARGETS, 'filenames': [None, './build.ninja']},
-        'outside_the_claim': ['the generator\'s real effect on disk; included files (the second family runs the real load::read on single-file manifest text)',
+        'outside_the_claim': ['the generator\'s real effect on disk (modelled: the k-th load sees generation k, in build.ninja itself or in an included all.ninja)',
                               'histories of several invocations'],
     })
     out.assumptions += ['load::read modelled (returns generation k on its k-th call; the manifest itself is file 0 as in the real loader)',
